@@ -1,3 +1,18 @@
 import Rtsp.Drv.Sess
 open Rtsp.Drv
-def main : IO Unit := runMain do return [("sess", ← Sess.mk)]
+
+/-- Like `runMain`, but the answer to every line is flushed at once: the `sess` harness also talks to
+the oracle interactively (one case at a time) besides the batch comparison. -/
+partial def sessLoop (h : Handler) (inp out : IO.FS.Stream) : IO Unit := do
+  let line ← inp.getLine
+  if line.isEmpty then return ()
+  let toks := (line.trimAscii.toString.splitOn " ").filter (· ≠ "")
+  match toks with
+  | [] => out.putStrLn "bad-op"
+  | d :: rest => if d == "sess" then out.putStrLn (← h rest) else out.putStrLn "bad-domain"
+  out.flush
+  sessLoop h inp out
+
+def main : IO Unit := do
+  let h ← Sess.mk
+  sessLoop h (← IO.getStdin) (← IO.getStdout)
